@@ -143,21 +143,52 @@ def firstSome (l : List (Option String)) : Option String := l.findSome? id
 
 def sameCands (a b : List CandO) : Bool := a.all b.contains && b.all a.contains
 
+/-- did this operation get a `GatherCandidates` call accepted (in the generation of the observation)?
+`gather2` = two calls queued back to back behind a held task loop, `grg` = call, Restart, call -/
+def acceptedGather (op r : String) : Bool :=
+  (op == "gather" && r == "ok") || (op == "gather2" && r == "ok+ok")
+  || (op == "grg" && (r == "ok+ok+ok" || r == "err:multiple+ok+ok"))
+
+/-- cycles never overlap, seen from outside: one cycle opens one socket per (interface address,
+transport), so an address never backs more own-socket host candidates of one network type than there
+are interfaces carrying it; and no two requests with the same key are in flight -/
+def overlapViolation (ifs : List Iface) (o : Obs) : Option String :=
+  let own := o.cands.filter (fun c => c.1.ty == .host && c.1.pflag != .M && c.1.addr.cls != .nm)
+  match own.find? (fun c => (own.filter (fun d => d.1.net == c.1.net && d.1.addr == c.1.addr)).length
+                              > ((ifs.flatMap (·.addrs)).filter (· == c.1.addr)).length) with
+  | some c => some ("more host candidates on " ++ c.1.addr.tok ++ " than interfaces carrying it (overlapping cycles)")
+  | none =>
+    let keys := o.pend.map (·.2.2)
+    if keys.any (fun k => (keys.filter (· == k)).length > 1) then
+      some "two requests with the same key in flight (overlapping cycles)" else none
+
 def cycleViolation (m : MonSt) (op r : String) (o : Obs) : Option String :=
   let p := m.prev
   firstSome [
+    -- two calls back to back while the state is still New: both are accepted, the first cycle is cancelled
+    -- before it marks Gathering; outside New both are refused and nothing changes
+    (if op == "gather2" && p.st == some .new && r != "ok+ok" then some "back-to-back GatherCandidates in state New: a call was refused" else none),
+    (if op == "gather2" && p.st.isSome && p.st != some .new && r != "err:multiple+err:multiple" then
+      some "GatherCandidates outside New was not refused" else none),
+    (if op == "gather2" && r != "ok+ok" && m.started && !(o.st == p.st && o.gen == p.gen && sameCands o.cands p.cands && o.evs.isEmpty
+        && o.nilOp == 0 && o.opens == p.opens) then
+      some "refused GatherCandidates changed the agent (second cycle or second nil)" else none),
+    (if op == "grg" && p.st == some .new && r != "ok+ok+ok" then some "GatherCandidates / Restart / GatherCandidates from New: a call was refused" else none),
+    (if op == "grg" && p.st.isSome && p.st != some .new && r != "err:multiple+ok+ok" then
+      some "GatherCandidates outside New was not refused, or the call after Restart was" else none),
+    (if op == "grg" && p.st.isSome && !(o.gen == p.gen + 1) then some "queued Restart did not start the next generation" else none),
+    (if acceptedGather op r && !(o.st == some .gathering || o.st == some .complete) then
+      some "accepted GatherCandidates did not leave New" else none),
     -- refusal outside New; acceptance in New
     (if op == "gather" && p.st.isSome && p.st != some .new && r != "err:multiple" then
       some "GatherCandidates outside New was not refused" else none),
     (if op == "gather" && p.st == some .new && r != "ok" then some "GatherCandidates in state New was refused" else none),
-    (if op == "gather" && r == "ok" && !(o.st == some .gathering || o.st == some .complete) then
-      some "accepted GatherCandidates did not leave New" else none),
     (if op == "gather" && r != "ok" && m.started && !(o.st == p.st && o.gen == p.gen && sameCands o.cands p.cands && o.evs.isEmpty && o.nilOp == 0
         && o.opens == p.opens) then
       some "refused GatherCandidates changed the agent (second cycle or second nil)" else none),
     -- once per cycle: within a generation the state only moves forward; generations change by Restart only
     (if m.started && o.gen == p.gen && gsRank o.st < gsRank p.st then some "gathering state moved backwards within a generation" else none),
-    (if m.started && o.gen != p.gen && !(op == "restart" && r == "ok" && o.gen == p.gen + 1) then some "generation changed without Restart" else none),
+    (if m.started && o.gen != p.gen && !((op == "restart" && r == "ok" || op == "grg") && o.gen == p.gen + 1) then some "generation changed without Restart" else none),
     (if op == "restart" && r == "ok" && !(o.st == some .new && o.cands.isEmpty) then some "Restart did not return to New with an empty candidate list" else none),
     -- the nil candidate: exactly once per completed cycle, never otherwise
     (if o.nils > 1 then some "second nil candidate in one generation" else none),
@@ -169,7 +200,7 @@ def cycleViolation (m : MonSt) (op r : String) (o : Obs) : Option String :=
       some "candidates or nil published in a generation whose gathering has not started (stale cycle)" else none),
     (if (o.cands ++ o.evs).any (fun c => c.2 != some o.gen) then some "published candidate carries the ufrag of another generation" else none),
     (if o.st == some .complete && o.pend.any (fun q => q.2.1 == o.gen) then some "cycle Complete while one of its requests is still in flight" else none),
-    (if o.muxGets.any (fun q => match q.1.2 with | some g => !(m.gathered ++ (if op == "gather" && r == "ok" then [o.gen] else [])).contains g | none => true) then
+    (if o.muxGets.any (fun q => match q.1.2 with | some g => !(m.gathered ++ (if acceptedGather op r then [o.gen] else [])).contains g | none => true) then
       some "mux connection requested under the ufrag of a generation that never started gathering (stale cycle, F12)" else none)
   ]
 
@@ -177,12 +208,12 @@ def cycleViolation (m : MonSt) (op r : String) (o : Obs) : Option String :=
 gather, the cycle clauses -/
 def check (cfg : Config) (ifs : List Iface) (m : MonSt) (op r : String) (o : Obs) : Option String × MonSt :=
   let m' : MonSt := { prev := o, started := true,
-                      gathered := if op == "gather" && r == "ok" then m.gathered ++ [o.gen] else m.gathered }
+                      gathered := if acceptedGather op r then m.gathered ++ [o.gen] else m.gathered }
   let sound := (o.cands ++ o.evs).findSome? fun c => candViolation cfg ifs c.1
   let ownSockets := ((m.prev.led.filter (fun q => q.1.1 == .sock)).map (·.2)).foldl (· + ·) 0
   -- "yields a host candidate" = published by this gather: listed now or delivered to OnCandidate during the
   -- operation (entering Failed inside the operation removes the candidate from the list again)
-  let compl := if op == "gather" && r == "ok" && o.held == 0 then completeViolation cfg ifs ownSockets (o.cands ++ o.evs) else none
-  (firstSome [sound, compl, cycleViolation m op r o], m')
+  let compl := if acceptedGather op r && o.held == 0 then completeViolation cfg ifs ownSockets (o.cands ++ o.evs) else none
+  (firstSome [sound, compl, overlapViolation ifs o, cycleViolation m op r o], m')
 
 end IceSpec.C18
